@@ -458,6 +458,21 @@ func (m mixM) Zed() string    { return "zed:" + m.N }
 func (m *mixM) Alpha() string { return "alpha:" + m.N }
 func (m mixM) Mid() string    { return "mid:" + m.N }
 
+// struct types that embed a pointer to themselves, directly or through another type: only a value can
+// end such a chain, the type does not
+type CycNode struct {
+	*CycNode
+	Label string
+}
+type CycPage struct {
+	*CycSite
+	Title string
+}
+type CycSite struct {
+	*CycPage
+	Host string
+}
+
 type mixHolder struct {
 	V mixM
 	P *mixM
@@ -481,11 +496,22 @@ func init() {
 			data, wantF = methDeep{methV{emb}, "h"}, "method-F"
 		case "mixed", "mixedRev":
 			data = mixHolder{V: mixM{"v"}, P: &mixM{"p"}, M: map[string]interface{}{"v": mixM{"m"}, "p": &mixM{"mp"}}}
+		case "cycSelf":
+			data = CycNode{&CycNode{nil, "in"}, "out"}
+		case "cycPair":
+			data = &CycPage{&CycSite{nil, "host"}, "title"}
 		default:
 			data, wantF = methNone{emb, "h"}, ""
 		}
 		type q struct{ src, want string }
 		qs := []q{{`{{ .G }}`, "7"}, {`{{ .EmbF.F }}`, "field-F"}, {`{{ .EmbF.G + 1 }}`, "8"}}
+		if which == "cycSelf" {
+			qs = []q{{`{{ .Label }}`, "out"}, {`{{ .CycNode.Label }}`, "in"}, {`{{ isset(.Label) }}|{{ isset(.Missing) }}`, "true|false"},
+				{`{{ .["Label"] }}`, "out"}, {`{{ .CycNode.CycNode.Label }}`, "ERR"}, {`{{ .Missing }}`, "ERR"}}
+		} else if which == "cycPair" {
+			qs = []q{{`{{ .Title }}`, "title"}, {`{{ .Host }}`, "host"}, {`{{ .CycSite.Host }}`, "host"}, {`{{ isset(.CycSite.CycPage.Title) }}`, "false"},
+				{`{{ .CycSite.CycPage.Title }}`, "ERR"}, {`{{ .Missing }}`, "ERR"}}
+		} else
 		if which == "mixed" || which == "mixedRev" {
 			qs = []q{{`{{ .V.Zed() }}`, "zed:v"}, {`{{ .P.Zed() }}`, "zed:p"}, {`{{ .P.Alpha() }}`, "alpha:p"}, {`{{ .M.v.Zed() }}`, "zed:m"},
 				{`{{ .M.p.Alpha() }}`, "alpha:mp"}, {`{{ .V.Mid() }}|{{ .P.Mid() }}`, "mid:v|mid:p"}, {`{{ .V.Alpha() }}`, "ERR"}, {`{{ .M.v.Alpha() }}`, "ERR"},
@@ -495,6 +521,7 @@ func init() {
 					qs[i], qs[j] = qs[j], qs[i]
 				}
 			}
+		} else if which == "cycSelf" || which == "cycPair" {
 		} else if wantF != "" {
 			qs = append(qs, q{`{{ .F() }}`, wantF}, q{`{{ x := .F }}{{ x() }}`, wantF})
 		} else {
@@ -539,6 +566,6 @@ func init() {
 }
 
 func genMethodCase(r *h.Rand) h.Case {
-	w := r.Pick([]string{"valueMethod", "valueMethodPtr", "ptrMethod", "deep", "none", "mixed", "mixedRev"})
+	w := r.Pick([]string{"valueMethod", "valueMethodPtr", "ptrMethod", "deep", "none", "mixed", "mixedRev", "cycSelf", "cycPair"})
 	return h.Case{Stream: "methods", NoModel: true, NonTrivial: true, Tags: []string{w}, Cmd: sx.L(sx.A("method-access"), sx.A(w))}
 }
